@@ -212,6 +212,8 @@ def run(ctx):
     golden.check(ctx, "lowering", "golden_lowering.json")
     rule_layout_stability(ctx)
     rule_first_arm(ctx)
+    from . import c01
+    c01.rule_erasure_arity(ctx)
     ctx.assume("continuation packaging, builtin package wiring and the assembly lowering's register/stack discipline are NOT analysed")
     return {}
 
